@@ -139,6 +139,8 @@ def sv_for(name, tag, value):
         return SV("enum", tag[5:]), {}
     if tag.startswith("str:"):
         return SV("str", tag[4:]), {}
+    if tag.startswith("cls:"):
+        return SV("cls", tag[4:]), {}
     raise rtcheck.NotEvaluable(f"parameter tag {tag}")
 
 
@@ -307,6 +309,9 @@ def run_case(qual, c, family, spec, tags: dict, args: dict, ev_budget=None):
             amap[n] = object.__new__(TypedNode if spec.typed else Node)
         elif kind == "pred":
             amap[n] = PREDICATES[val]
+        elif kind == "clsobj":
+            import nutree.node, nutree.tree, nutree.typed_tree
+            amap[n] = next(getattr(m, val) for m in (nutree.node, nutree.tree, nutree.typed_tree) if hasattr(m, val))
         elif kind == "keyed":
             amap[n] = mk(val)
         elif kind == "anykind":
@@ -470,6 +475,8 @@ def arg_descriptions(tag, spec, tree_nodes_n, clone_lists_n, rng, pname=""):
         return [("iter", k) for k, v in ENUM_ITERMETHOD.items() if v == tag[5:]][:1]
     if tag.startswith("str:"):
         return [("lit", tag[4:])]
+    if tag.startswith("cls:"):
+        return [("clsobj", tag[4:])]
     raise rtcheck.NotEvaluable(f"no concrete pool for parameter tag {tag}")
 
 
